@@ -1163,10 +1163,15 @@ class SymArray(numpy.ndarray):
             if method == 'reduce':
                 return _ufunc(ufunc, method, *ins, **kw)
             return NotImplemented
-        kw.pop('out', None)
+        out = kw.pop('out', None)
         if kw.get('where', True) is not True:
             raise Unsupported('ufunc where= on SymArray')
         r = _ufunc(ufunc, method, *[x if isinstance(x, numpy.ndarray) else x for x in ins])
+        if out is not None:
+            # in-place operation (a /= b): write through, exactly like numpy does (aliasing is observable)
+            tgt = out[0] if isinstance(out, tuple) else out
+            numpy.asarray(tgt).view(numpy.ndarray)[...] = r
+            return tgt
         if isinstance(r, numpy.ndarray) and r.dtype == object:
             return r.view(SymArray)
         return r
